@@ -89,8 +89,10 @@ static std::string op_ai(const Toks &t) {
     IncObj *o = incs[slot];
     const std::string &op = t[2];
     if (op == "REINIT") {
-        OptBuf nb(t[3] == "SELF" ? std::string("NULL") : t[3]), kb(t[4]);
-        const unsigned char *np = t[3] == "SELF" ? inc_nonce(o) : nb.p(), *kp = kb.p();
+        OptBuf nb(t[3] == "SELF" ? std::string("NULL") : t[3]), kb(t[4] == "SELF" ? std::string("NULL") : t[4]);
+        // SELF: the object's own field (documented as readable) handed back as the argument
+        const unsigned char *np = t[3] == "SELF" ? inc_nonce(o) : nb.p();
+        const unsigned char *kp = t[4] == "SELF" ? (o->v == 0 ? o->u.a.key : o->v == 1 ? o->u.b.key : o->u.c.key) : kb.p();
         if (o->v == 0) ascon128_aead_reinit(&o->u.a, np, kp);
         else if (o->v == 1) ascon128a_aead_reinit(&o->u.b, np, kp);
         else ascon80pq_aead_reinit(&o->u.c, np, kp);
